@@ -470,17 +470,21 @@ def layout(bufs, primary, delta, auxmode, forbid, rng, inputs_may_overlap=False)
         mode = auxmode
         cand = None
         tries = 0
+        # an auxiliary input is laid over the primary output; a secondary *output* (mac of the Wrap functions, ...) cannot
+        # share octets with the primary output, it is laid over the primary input instead (admissible whenever the
+        # primary output is elsewhere)
+        ref = out0 if b.kind == "in" else in0
         while tries < 12:
             tries += 1
             if mode == "outside" or b.size == 0:
                 cand = far()
             elif mode == "at_out_start":
-                cand = out0.off
+                cand = ref.off
             elif mode == "inside":
-                lo, hi = out0.off - b.size + 1, out0.off + out0.size - 1
+                lo, hi = ref.off - b.size + 1, ref.off + ref.size - 1
                 cand = rng.randrange(lo, hi + 1) if hi >= lo else far()
-            else:  # inside_end: ends exactly where out0 ends
-                cand = out0.off + out0.size - b.size
+            else:  # inside_end: ends exactly where the reference region ends
+                cand = ref.off + ref.size - b.size
             b.off = cand
             ok = True
             for q in placed:
